@@ -216,6 +216,25 @@ class SBytes(Sym):
     __hash__ = object.__hash__
 
 
+class SByteBuf(Sym):
+    """a mutable byte buffer of symbolic length n (bytearray(n)): contents are not tracked, only the length and that every
+    store is in range; bytes() of it is a byte string of the same symbolic length"""
+
+    __slots__ = ("length", "frozen")
+
+    def __init__(self, length, frozen=False):
+        self.length = length
+        self.frozen = frozen
+
+    def __repr__(self):
+        return f"SByteBuf(len={self.length})"
+
+    def __bool__(self):
+        raise NativeUseOfSymbol("bool(SByteBuf)")
+
+    __hash__ = object.__hash__
+
+
 # ---------------------------------------------------------------------------------------------
 # helpers
 
